@@ -219,11 +219,11 @@ static void *verif_memcpy(void *dst, const void *src, size_t n)
 		size_t i;
 		for (i = 0; i < ENV_CPY_SMALL; ++i) {
 			if (i < n)
-				((sqfs_u8 *)dst)[i] = ((const sqfs_u8 *)src)[i];
+				((sqfs_u8 *)dst)[i] = ((sqfs_u8 *)src)[i];
 		}
 	} else {
 		if (g_k < n)
-			((sqfs_u8 *)dst)[g_k] = ((const sqfs_u8 *)src)[g_k];
+			((sqfs_u8 *)dst)[g_k] = ((sqfs_u8 *)src)[g_k];
 	}
 	return dst;
 #endif
